@@ -283,27 +283,27 @@ func TestPropGrafanaNet(t *testing.T) {
 				}
 			}
 		}
-		// (b) a batch answered with a failure is re-sent unchanged before any later batch with the same series
+		// (b) a batch answered with a failure is retried unchanged until it is acknowledged (never skipped, never re-cut)
 		retried := false
-		lastBySeries := map[string]*request{}
-		for i := range reqs {
-			r := &reqs[i]
-			names := map[string]bool{}
-			for _, p := range r.points {
-				names[p.name] = true
-			}
-			for n := range names {
-				if prev := lastBySeries[n]; prev != nil && prev.outcome != "200" {
-					if prev.raw != r.raw {
-						t.Fatalf("request #%d (outcome %s) carrying series %s was not re-sent unchanged: the next request with that series (#%d) differs (script %v)", prev.seq, prev.outcome, n, r.seq, st.script)
-					}
-					retried = true
-				}
-				lastBySeries[n] = r
+		ackedBodies := map[string]bool{}
+		for _, r := range reqs {
+			if r.outcome == "200" {
+				ackedBodies[r.raw] = true
 			}
 		}
-		// (c) per series, acknowledged timestamps are non-decreasing in acknowledgement order
+		for _, r := range reqs {
+			if r.outcome != "200" && len(r.points) > 0 {
+				if !ackedBodies[r.raw] {
+					t.Fatalf("request #%d was answered %s and its body was never acknowledged unchanged afterwards (skipped or re-cut batch); script %v", r.seq, r.outcome, st.script)
+				}
+				retried = true
+			}
+		}
+		// (c) per series, the FIRST acknowledgement of each point follows the order of the timestamps
+		// (a stale duplicate of an already acknowledged request may be recorded late: the server sees it when
+		// its handler finally runs, after the client has long given up and retried)
 		lastTs := map[string]int64{}
+		first := map[sent]bool{}
 		multi := false
 		for _, r := range reqs {
 			if r.outcome != "200" {
@@ -311,11 +311,16 @@ func TestPropGrafanaNet(t *testing.T) {
 			}
 			seen := map[string]bool{}
 			for _, p := range r.points {
+				k := sent{p.name, p.ts}
+				seen[p.name] = true
+				if first[k] {
+					continue // duplicate from a retry
+				}
+				first[k] = true
 				if p.ts < lastTs[p.name] {
-					t.Fatalf("series %s: point with timestamp %d acknowledged after %d (script %v)", p.name, p.ts, lastTs[p.name], st.script)
+					t.Fatalf("series %s: the point with timestamp %d was first acknowledged after the point with timestamp %d (script %v)", p.name, p.ts, lastTs[p.name], st.script)
 				}
 				lastTs[p.name] = p.ts
-				seen[p.name] = true
 			}
 			if len(seen) >= 2 {
 				multi = true
